@@ -128,6 +128,15 @@ def gen_case(run, i):
     family = 'dyadic' if rng.random() < 0.6 else 'decimal'
     proc = rng.choice(['auto', 'auto', 'auto', 'ref', 'src'])
     src, ref = rasters.pair_geometry(rng, family, proc)
+    if i % 10 == 7:
+        # slivers: the same kind of geometry on a unit 1024 times finer, the source moved by 1-3 of those units: its edges lie
+        # between 1/20000 and 1/700 of a pixel beside pixel edges of the reference - a window edge that is *almost* on the grid
+        # must still be expanded to whole pixels (nothing may be "snapped" away)
+        family = 'dyadic'
+        src, ref = rasters.pair_geometry(rng, family, proc, margin=(1, 3))
+        k, dx, dy = 1024, rng.choice([1, 2, 3]), rng.choice([1, 2, 3])
+        src = rasters.Grid(src.x0 * k + dx, src.ytop * k - dy, src.px * k, src.py * k, src.w, src.h, src.unit / k)
+        ref = rasters.Grid(ref.x0 * k, ref.ytop * k, ref.px * k, ref.py * k, ref.w, ref.h, ref.unit / k)
     overlap = rng.choice([(0, 0), (0, 0), (1, 1), (2, 1), (3, 3), (1, 4), (5, 4)])
     nblk_exp = rng.choice([0, 1, 2, 3, 4, 5, 6])
     if overlap[0] > 2 or overlap[1] > 2:
@@ -158,6 +167,7 @@ def run(run: common.Run):
             continue
         run.evaluations += 1
         run.hist[f"family={case['family']}"] += 1
+        run.hist['sliver offsets (source edges within 1/700 pixel of reference pixel edges)'] += int(case['i'] % 10 == 7 and case['i'] >= 0)
         run.hist[f"proc_ref={o['proc_ref']}"] += 1
         nblk = len(o['blocks']) // case['nb']
         run.hist['blocks=1' if nblk == 1 else 'blocks=2-8' if nblk <= 8 else 'blocks>8'] += 1
